@@ -117,6 +117,10 @@ def check(inj, o, top, mode):
             if not o.get("exc_is_valueerror"):
                 bad.append(("conversion-exception",
                             ".exception is %s" % o.get("exc_cls")))
+            elif o.get("exc_is_original") is False:
+                bad.append(("conversion-exception",
+                            ".exception is not the exception object the "
+                            "datatype raised"))
     return bad
 
 
